@@ -149,7 +149,7 @@ def verify_function(ctx, c, section, only_prop):
             continue
         n_real += 1
         rec = {"name": ob.name, "status": {"discharged": C.DISCHARGED, "failed": C.FAILED, "undecided": C.UNDECIDED}[st], "backend": backend,
-               "time_s": round(dt, 4), "goal": str(ob.goal)[:300] if ob.goal is not None else None, "props": c.props,
+               "time_s": round(dt, 4), "goal": (ob.raw or str(ob.goal))[:300] if ob.goal is not None else None, "info": (ob.info or "")[:160], "props": c.props,
                "witness_families": ob.families}
         if st != "discharged":
             rec["detail"] = detail
